@@ -454,6 +454,8 @@ class MultivariateNormal(TMultivariateNormal, Distribution):
         return self._new_like(mean=self.mean * other, covariance_matrix=self.lazy_covariance_matrix * (other**2))
 
     def __rmul__(self, other: Number) -> MultivariateNormal:
+        if not (isinstance(other, int) or isinstance(other, float)):
+            return NotImplemented
         return self.__mul__(other)
 
     def __radd__(self, other: MultivariateNormal) -> MultivariateNormal:
